@@ -15,7 +15,10 @@ sys.path.insert(0, '/verif/harness/py')
 import vlib, os
 for pkg in vlib.PKGS:
     if os.path.isdir(os.path.join(vlib.HARNESS_GO, pkg)):
-        b, out = vlib.go_test_binary(pkg)
+        if pkg == "protocol":
+            continue      # built by the C15 check together with the registry file it generates
+        # (package newrelic: the C12 harness needs the ticker hook the C12 check weaves in; warm the shared processor harness)
+        b, out = vlib.go_test_binary(pkg, only=["proc"]) if pkg == "newrelic" else vlib.go_test_binary(pkg)
         print(pkg, 'ok' if b else 'FAILED\n' + out[-2000:])
 # the race-detector build of the C17 harness is slow when cold
 b, out = vlib.go_test_binary("newrelic", race=True, only=["c17"])
